@@ -32,3 +32,9 @@ func EqBytes[A, B interface{ ~[]byte | ~string }](a A, alo int, b B, blo int, n 
 	}
 	return true
 }
+
+// LE32 is the little-endian 32-bit word at b[i:i+4] (what a native uint32 load reads on the
+// little-endian targets the verifier assumes).
+func LE32(b []byte, i int) uint32 {
+	return uint32(b[i]) | uint32(b[i+1])<<8 | uint32(b[i+2])<<16 | uint32(b[i+3])<<24
+}
